@@ -358,7 +358,16 @@ func ruleExactExtraction(c *Ctx, rule string) {
 		"math/big.Rat.SetString":  {"encoding/json.Number.String", ""},
 	}
 	seen := map[string]bool{}
-	core.EachInstr(ext, func(i ssa.Instruction) {
+	var extInstrs []ssa.Instruction
+	for _, fi := range c.familyInstrs(ext) {
+		extInstrs = append(extInstrs, fi.I)
+	}
+	eachExt := func(f func(ssa.Instruction)) {
+		for _, i := range extInstrs {
+			f(i)
+		}
+	}
+	eachExt(func(i ssa.Instruction) {
 		call, ok := i.(*ssa.Call)
 		if !ok {
 			return
